@@ -25,8 +25,8 @@ let renumber (pr : proto) : proto =
       pr.step o') }
 
 let () =
-  register "push0" (fun () -> mk_proto push_init push_step push_poll false view_push);
-  register "push0_raw" (fun () -> mk_proto push_init push_step push_poll false view_push);
+  register "push0" (fun () -> mk_proto push_init push_step_cur push_poll false view_push);
+  register "push0_raw" (fun () -> mk_proto push_init push_step_cur push_poll false view_push);
   register "pull0" (fun () -> mk_proto pull_init pull_step pull_poll false view_pull);
   register "pull0_raw" (fun () -> mk_proto pull_init pull_step pull_poll false view_pull);
   register "sub0" (fun () -> mk_proto sub_init sub_step_cur sub_poll false view_sub);
